@@ -353,6 +353,25 @@ def rule_engine_state(rep: Report, idx) -> None:
 				r.violate(o.key, (o.file, o.line), o.message, o.fragment)
 			else:
 				r.ok(o.key, (o.file, o.line))
+	# ... and state an engine OBJECT keeps between two parses (gram_check and ast_check keep one SyntaxParser for every text they are given): a memo of
+	# match results keyed by (symbol, cursor) forgets the token list, so after a rejected text the next one is answered from the rejected one's records
+	owners = set()
+	for rel in ('rogw/tranp/implements/syntax/tranp/syntax.py', 'rogw/tranp/implements/syntax/tranp/rule.py', 'rogw/tranp/implements/syntax/tranp/ast.py', 'rogw/tranp/implements/syntax/tranp/rules.py'):
+		try:
+			owners |= {c.name for c in idx.mod(rel).classes.values()}
+		except Exception:
+			continue
+	scratch_g = Report('C04', rep.tier)
+	c04.rule_g(scratch_g, idx)
+	for rule in scratch_g.rules:
+		for o in rule.obligations:
+			if o.key.split('.')[0] not in owners:
+				continue
+			n_ += 1
+			if o.status == 'violated':
+				r.violate(o.key, (o.file, o.line), o.message + ' — one SyntaxParser parses every grammar text of a gram_check / ast_check session: what it remembers from a (rejected) text answers for the next, so from_ast(parse(pretty(g))) is the rule set of an EARLIER text, or a valid printout is rejected', o.fragment)
+			else:
+				r.ok(o.key, (o.file, o.line))
 	if n_ == 0:
 		r.ok('engine-package-clean', None, message='no class-level object, mutated shared container or mutable default in the engine package')
 
